@@ -817,6 +817,10 @@ func (env *Env) evalCall(e *ECall) TV {
 			efail("isfresh of %s", x.V)
 		}
 		return TV{V: vBool(mkApp(">", r, ex.get(env.old, allocKey, SInt))), T: tBool}
+	case "addr":
+		// addr(x.f): the address of an lvalue as a pointer value
+		p, pt := env.addrOf(e.Args[0])
+		return TV{V: Val{K: VPtr, P: p}, T: types.NewPointer(pt)}
 	case "timesub":
 		a := env.eval(e.Args[0])
 		b := env.eval(e.Args[1])
